@@ -27,12 +27,15 @@ RULE = ("cases = add histories (5-25 operations, ~45% invalid of 6 kinds) on for
         "forest has depth >= 2")
 ASSUMPTIONS = ["dashed top-level UIDs occur only on childless variants and never clash with a nested UID (as the quantifier says)",
                "completeness of get_variants is judged only for the unfiltered call",
-               "re-adding the same object to its own parent may be accepted or refused; only 'state unchanged' is judged"]
+               "re-adding the same object to its own parent may be accepted or refused; only 'state unchanged' is judged",
+               "offering a variant that already sits in the forest to ANOTHER container (as it is, or with UID/arches re-spelled for "
+               "the new place) may be refused or carried out as a move; judged: a refusal leaves the forest unchanged, and whatever "
+               "the outcome the forest holds every variant once, under the parent its .parent names, with aligned UIDs"]
 REQUIRED_REACH = ["composeinfo.VariantBase.add", "composeinfo.VariantBase._get_all_parents", "composeinfo.VariantBase.__getitem__",
                   "composeinfo.VariantBase.get_variants", "composeinfo.Variant._validate_uid", "composeinfo.Variant._validate_parent_arch"]
 REQUIRED_MONITORS = ["add-outcome", "forest-after-call", "invariant-walk", "lookup", "get-variants"]
 KINDS = ["valid", "valid", "valid", "dup-id", "dup-uid", "foreign-arch", "foreign-arch-first-child", "misaligned-uid", "bad-id", "cycle", "readd",
-         "cycle-respelled"]
+         "cycle-respelled", "attached-elsewhere", "attached-elsewhere-respelled"]
 CLASS_FLOORS = dict(("op-" + k, 10) for k in set(KINDS))
 CLASS_FLOORS.update({"ten-or-more-siblings": 10, "depth-3": 10, "dashed-top": 5, "after-reload": 10, "query-recursive": 50, "query-arch-nobody-has": 20,
                      "query-arch-src": 20, "query-types-subset": 50, "query-self": 10, "query-inner": 20,
@@ -247,6 +250,19 @@ def gen_history(rng):
             else:
                 target, h = rng.choice(pairs)
                 ops.append({"kind": kind, "target": target, "handle": h, "expect": "refuse", "why": "its own ancestor (re-spelled)"})
+                continue
+        if kind in ("attached-elsewhere", "attached-elsewhere-respelled"):
+            # a variant that already sits in the forest is offered to ANOTHER container (not its parent, not inside its own subtree)
+            pairs = [(t, h0) for h0 in attached for t in [None] + [a for a in attached if F.depth(a) < 3]
+                     if t != F.parent[h0] and (t is None or h0 not in F.ancestors_or_self(t))]
+            if kind.endswith("respelled"):
+                pairs = [(t, h0) for t, h0 in pairs if t is not None or "-" in F.specs[h0]["uid"]]
+            if not pairs:
+                kind = "valid"
+                cands = [None] + [h for h in attached if F.depth(h) < 3]
+            else:
+                target, h = rng.choice(pairs)
+                ops.append({"kind": kind, "target": target, "handle": h, "expect": "grey", "why": "attached elsewhere"})
                 continue
         if kind == "readd":
             if not attached:
@@ -480,6 +496,16 @@ def check_history(ctx, pm, H, seed, exhaustive_queries=False):
             v.uid = "%s-%s" % (container.uid, v.id)
             v.arches = set(sorted(container.arches)[:1])
             verdict, why = "refuse", "its own ancestor (re-spelled)"
+        moved = op["kind"] in ("attached-elsewhere", "attached-elsewhere-respelled")
+        before_respelling, _p = real_snapshot(ci)
+        if op["kind"] == "attached-elsewhere-respelled":
+            # the caller re-spells UID and arches so that the variant would be well-formed in the new place
+            restore = (v.uid, set(v.arches))
+            if target is None:
+                v.uid = v.id
+            else:
+                v.uid = "%s-%s" % (container.uid, v.id)
+                v.arches = set(v.arches) & set(container.arches) or set(sorted(container.arches)[:1])
         before, _p = real_snapshot(ci)
         ctx.count("op-" + op["kind"])
         try:
@@ -514,6 +540,42 @@ def check_history(ctx, pm, H, seed, exhaustive_queries=False):
                 ref += 1
                 ctx.count("refused")
         after, dup = real_snapshot(ci)
+        if moved:
+            # outcome not judged (refusal and a proper move are both sound); judged: the forest afterwards
+            if got != "accept" and restore is not None:
+                v.uid, v.arches = restore
+                after, dup = real_snapshot(ci)
+                before = before_respelling
+            badwalk, _seen = invariant_walk(ci)
+            probs = list(badwalk[:5])
+            if got != "accept" and after != before:
+                probs += ["a refused add changed the forest"] + _snapdiff(before, after)
+            held = []
+            todo = [ci.variants]
+            while todo:
+                c = todo.pop()
+                for key, m in c.variants.items():
+                    if m is v:
+                        held.append("%s[%r]" % (getattr(c, "uid", "<top>"), key))
+                    if len(todo) < 1000:
+                        todo.append(m)
+            if len(held) != 1:
+                probs.append("the variant is held %d times: %s" % (len(held), held))
+            ctx.monitor("forest-after-call", fired=bool(probs))
+            if probs:
+                ctx.violation("forest-after-call", "offering a variant that already sits in the forest to another container is refused "
+                              "(forest unchanged) or carried out as a move: afterwards every variant is held once, by the parent its "
+                              ".parent names, UIDs aligned and unique", case,
+                              observed=["outcome: %s%s" % (got, " (%s)" % str(exc)[:80] if exc else "")] + probs[:6],
+                              expected="consistent forest", key=key_state(op, got))
+                return acc, ref, False
+            if got == "accept":
+                # carried out as a move: the model does not follow re-spelled subtrees; the history ends here
+                ctx.count("attached-elsewhere-moved")
+                return acc, ref, False
+            ref += 1
+            ctx.count("refused")
+            continue
         if restore is not None:
             if got == "accept":
                 # the forest is corrupt now (reported above); nothing sensible to continue with
